@@ -143,7 +143,7 @@ theorem spec_decl_section (cfg : Cfg) (ctx : ClsCtx) (doc : Option DocC) (d impl
 theorem spec_cmd_add_test (cfg : Cfg) (ctx : ClsCtx) (doc : Option DocC) (call : Call)
     (hn : call.lname = lit "add_test") (hincl : doc.isSome = true ∨ cfg.inclAddTest = true) :
     (Item.cmd doc call).spec cfg ctx =
-      { top := [.ctest (nameOf call.singles).1 (docTextOf doc) (ctestParams call.singles)] } := by
+      { top := [.ctest (nameOf call.allTexts).1 (docTextOf doc) (ctestParams call.allTexts)] } := by
   have hc : (doc.isSome || cfg.inclAddTest) = true := by simpa using hincl
   have h1 : lit "add_test" ≠ lit "set" := by decide
   have h2 : lit "add_test" ≠ lit "option" := by decide
@@ -211,7 +211,7 @@ theorem spec_cmd_add_test_if (cfg : Cfg) (ctx : ClsCtx) (doc : Option DocC) (cal
     (hn : call.lname = lit "add_test") :
     (Item.cmd doc call).spec cfg ctx =
       if doc.isSome || cfg.inclAddTest then
-        { top := [.ctest (nameOf call.singles).1 (docTextOf doc) (ctestParams call.singles)] } else {} := by
+        { top := [.ctest (nameOf call.allTexts).1 (docTextOf doc) (ctestParams call.allTexts)] } else {} := by
   have h1 : lit "add_test" ≠ lit "set" := by decide
   have h2 : lit "add_test" ≠ lit "option" := by decide
   simp [Item.spec, hn, h1, h2]
@@ -370,6 +370,8 @@ theorem Call.Sim.lname {c c' : Call} (h : c.Sim c') : c.lname = c'.lname := h.1
 theorem Call.Sim.args {c c' : Call} (h : c.Sim c') : c.toCmd.args = c'.toCmd.args := h.2
 theorem Call.Sim.singles {c c' : Call} (h : c.Sim c') : c.singles = c'.singles := by
   simp [Call.singles, Cmd.singles, h.args]
+theorem Call.Sim.allTexts {c c' : Call} (h : c.Sim c') : c.allTexts = c'.allTexts := by
+  simp [Call.allTexts, h.args]
 theorem DocSim.isSome {d d' : Option DocC} (h : DocSim d d') : d.isSome = d'.isSome := by
   cases d <;> cases d' <;> simp_all [DocSim]
 theorem DocSim.docText {d d' : Option DocC} (h : DocSim d d') : docTextOf d = docTextOf d' := by
@@ -406,7 +408,7 @@ theorem Item.spec_sim (cfg : Cfg) (ctx : ClsCtx) :
     (a b : Item) → a.Rel Call.Sim DocSim b → a.spec cfg ctx = b.spec cfg ctx
   | .cmd d c, .cmd d' c', h => by
     simp only [Item.Rel] at h
-    simp only [Item.spec, h.2.lname, h.2.singles, h.2.args, h.1.isSome, h.1.docText]
+    simp only [Item.spec, h.2.lname, h.2.singles, h.2.allTexts, h.2.args, h.1.isSome, h.1.docText]
   | .block d o bd c, .block d' o' bd' c', h => by
     simp only [Item.Rel] at h
     simp only [Item.spec, h.2.1.lname, h.2.1.singles, h.2.1.args, h.1.isSome, h.1.docText,
@@ -435,7 +437,7 @@ theorem Item.wf_sim (inClass : Bool) :
     (a b : Item) → a.Rel Call.Sim DocSim b → a.wf inClass = b.wf inClass
   | .cmd d c, .cmd d' c', h => by
     simp only [Item.Rel] at h
-    simp only [Item.wf, h.2.lname, h.2.singles]
+    simp only [Item.wf, h.2.lname, h.2.singles, h.2.allTexts]
   | .block d o bd c, .block d' o' bd' c', h => by
     simp only [Item.Rel] at h
     simp only [Item.wf, h.2.1.lname, h.2.1.singles, h.2.2.2.lname, itemsWf_sim _ bd bd' h.2.2.1]
